@@ -135,6 +135,13 @@ func strip(v ssa.Value) ssa.Value {
 			v = x.X
 		case *ssa.ChangeInterface:
 			v = x.X
+		case *ssa.Field:
+			// a field taken out of a struct value loaded from such a carrier variable
+			if r := structFieldOf(x.X, x.Field, 0); r != nil {
+				v = r
+				continue
+			}
+			return v
 		case *ssa.Phi:
 			// a phi with a single incoming edge (left behind by the helper inliner's jump threading) is its operand
 			if len(x.Edges) != 1 || x.Edges[0] == ssa.Value(x) {
@@ -150,6 +157,16 @@ func strip(v ssa.Value) ssa.Value {
 				if r := freeVarStored(fv); r != nil {
 					v = r
 					continue
+				}
+				return v
+			}
+			if fa, isFA := x.X.(*ssa.FieldAddr); isFA {
+				// a field of a local struct that only carries values between new helpers (a type absent from the pinned tree)
+				if cal, isAl := fa.X.(*ssa.Alloc); isAl {
+					if r := carrierFieldValue(cal, fa.Field, x, 0); r != nil {
+						v = r
+						continue
+					}
 				}
 				return v
 			}
